@@ -3,8 +3,10 @@
 Simulated dimension: complete() is a cancellation injected at an arbitrary point of the schedule - by a
 system at any queue position and timestep (also in the middle of a multi-step request), or from
 outside between steps; afterwards the simulator keeps issuing requests and checks that nothing moves."""
-from .common import (MAXSIZE, Model, ModelCompleteError, Rec, RefSched, SystemNotFoundError, gen_prio, gen_window,
-                     spec_defaults)
+import logging
+
+from .common import (MAXSIZE, Model, ModelCompleteError, Rec, RefSched, SystemNotFoundError, gen_flavour, gen_prio, gen_window,
+                     rec_class, spec_defaults)
 
 PROPERTY = "C06"
 QUICK_RUNS = 20000
@@ -15,13 +17,14 @@ RULE = ("1-8 recording systems (mixed priorities/windows); completion point = (s
         "removal, rejected n, complete() again}; non-trivial = completion from outside, or from a system that is "
         "neither first nor last with >=1 due system behind it, followed by >=3 further requests; distinct = "
         "(queue length, completer position, due systems behind, inside multi-step?, tail op kinds)"
-        "; also: completion before the first step, a completer that raises right after complete(), systems bound to another (running) model")
+        "; also: completion before the first step, a completer that raises right after complete(), systems bound to another (running) model, falsy systems, ambient logging state (custom logger without a level, raised level, logging.disable)")
 COMPONENTS = {"real": ["ECAgent.Core.Model.complete/is_running/__bool__/execute", "ECAgent.Core.SystemManager.execute_systems",
                        "add_system/remove_system after completion"],
               "stub": ["System.execute bodies are harness recorders; the completer calls model.complete() when scripted"]}
 PROBES = ["completer_first", "completer_middle", "completer_last", "complete_outside", "complete_at_t0",
           "multi_step_spans_completion", "throw_error_raised", "add_after_complete", "remove_after_complete",
-          "due_system_skipped", "completer_raises_after_complete", "system_bound_to_another_model"]
+          "due_system_skipped", "completer_raises_after_complete", "system_bound_to_another_model", "falsy_systems",
+          "logging_custom_logger", "logging_level_warning", "logging_disable_info", "logging_disable_critical", "logging_level_debug"]
 TECHNIQUE = "deterministic simulation: complete() injected as a cancellation at every schedule point, then a seeded request tail with a 'nothing moves' oracle"
 LEVEL_TEXT = ("Seeded search over the completion point (queue position x timestep, inside multi-step requests, from outside) "
               "and over the later request history; checks that nothing executes after the completing system, that the clock, "
@@ -80,7 +83,11 @@ def generate(rng, tier):
             tail.append({"op": "remove_ghost"})
     if comp["by"] is not None and rng.random() < 0.2:
         comp["then_raise"] = rng.choice(["OSError", "ValueError", "RuntimeError", "KeyError"])
-    return {"systems": systems, "complete": comp, "pre": pre, "tail": tail}
+    # ambient logging state: the statement's reactions must not depend on whether anybody listens to the model's logger
+    r = rng.random()
+    log = None if r < 0.7 else rng.choice(["custom_logger", "custom_logger", "level_warning", "disable_info", "disable_critical",
+                                            "level_debug"])
+    return dict({"systems": systems, "complete": comp, "pre": pre, "tail": tail, "logging": log}, **gen_flavour(rng))
 
 
 BAD = {"zero": 0, "neg": -3, "float": 1.5, "str": "2", "none": None}
@@ -110,18 +117,43 @@ class World:
 
 
 def execute(sc, ctx):
-    m = Model(seed=20260927)
+    try:
+        _execute(sc, ctx)
+    finally:
+        logging.disable(logging.NOTSET)
+        logging.getLogger("MODEL").setLevel(logging.INFO)
+
+
+def _execute(sc, ctx):
+    how = sc.get("logging")
+    if how == "custom_logger":           # a logger of the user's own: no level set, so it inherits WARNING from the root
+        m = Model(seed=20260927, logger=logging.getLogger("c06.user.logger"))
+    else:
+        m = Model(seed=20260927)
+    Rec_ = rec_class(sc, ctx)       # noqa: N806
     w = World(sc, ctx, m)
     ref = RefSched()
     sm = m.systems
     other = Model(seed=99)
+    # (constructing a Model re-arms the shared 'MODEL' logger, so the ambient state is set after the last construction)
+    if how == "level_warning":
+        m.logger.setLevel(logging.WARNING)
+    elif how == "level_debug":
+        m.logger.setLevel(logging.DEBUG)
+    elif how == "disable_info":
+        logging.disable(logging.INFO)
+    elif how == "disable_critical":
+        logging.disable(logging.CRITICAL)
+    if how:
+        ctx.fault("ambient.logging")
+        ctx.probe("logging_" + how)
     objs = {}
     for spec in sc["systems"]:
         spec = spec_defaults(spec)
         if ref.has(spec["id"]) or spec["freq"] < 1:
             continue
         # a "foreign" system was constructed for another, still running model but is registered here (a shared observer)
-        objs[spec["id"]] = Rec(spec, other if spec.get("foreign") else m, w)
+        objs[spec["id"]] = Rec_(spec, other if spec.get("foreign") else m, w)
         if spec.get("foreign"):
             ctx.probe("system_bound_to_another_model")
         ctx.expect_ok("setup-add", sm.add_system, objs[spec["id"]])
@@ -232,7 +264,7 @@ def execute(sc, ctx):
             spec = spec_defaults(op["sys"])
             if ref.has(spec["id"]) or spec["id"] in objs:
                 continue
-            objs[spec["id"]] = Rec(spec, m, w)
+            objs[spec["id"]] = Rec_(spec, m, w)
             ctx.expect_ok("add-after-complete", sm.add_system, objs[spec["id"]])
             ref.add(spec)
             ctx.probe("add_after_complete")
